@@ -19,7 +19,7 @@ type strUnit struct {
 	Raw  bool   // written raw (not an escape)
 }
 
-var c11Units = []string{`a`, `\"`, `\\`, `\/`, `\b`, `\f`, `\n`, `\r`, `\t`, "\\u0041", "\\u00e9", "\\ud83d\\ude00", `é`, `😀`, `'`, `$`, `/`, ` `, `\u0000`, `{`}
+var c11Units = []string{`a`, `\"`, `\\`, `\/`, `\b`, `\f`, `\n`, `\r`, `\t`, "\\u0041", "\\u00e9", "\\ud83d\\ude00", `é`, `😀`, `'`, `$`, `/`, ` `, `\u0000`, `{`, `/*`, `*/`, `//`}
 
 func c11StringLit(i int64) string {
 	k := int64(len(c11Units))
@@ -54,7 +54,7 @@ var c11Numbers = []string{"0", "-0", "1", "-1", "10", "1.5", "-2.25", "0.1", "1E
 	"18446744073709551615", "18446744073709551616", "20000000000000000000", "99999999999999999999", "-18446744073709551616", "9223372036854775807", "9223372036854775808", "4294967296", "340282366920938463463374607431768211456"}
 
 var c11Escapes = []string{`\"`, `\\`, `\/`, `\b`, `\f`, `\n`, `\r`, `\t`, "\\u0041", "\\u00e9", "\\u20ac", "\\ud83d\\ude00", "\\uD83D\\uDE00", `\u0000`, `\u001f`, "\\uffff", `\u007f`, "\\u00E9"}
-var c11Raw = []string{"a", "Z", " ", "é", "€", "😀", "'", "$", "/", "{", "}", "[", "]", "(", ")", ":", ",", ".", "*", "?", "&", "|", "~", "`", "%", "^", ";", "=", "<", ">", "!", "+", "-", "0"}
+var c11Raw = []string{"/*", "*/", "//", "#", "<!--", "a", "Z", " ", "é", "€", "😀", "'", "$", "/", "{", "}", "[", "]", "(", ")", ":", ",", ".", "*", "?", "&", "|", "~", "`", "%", "^", ";", "=", "<", ">", "!", "+", "-", "0"}
 var c11WS = []string{"", " ", "\t", "\n", "\r", "  ", " \n\t "}
 
 type c11Gen struct {
@@ -403,7 +403,7 @@ func init() {
 	nStr := c11NStrings()
 	fw.Register(&fw.Prop{
 		ID: "C11", Title: "JSON texts are expressions that denote themselves",
-		Rule: fmt.Sprintf("cases: (a) exhaustive: all %d string literals of <=3 units over a 20-unit alphabet of JSON escapes (incl. \\uXXXX and a surrogate pair), raw BMP/astral characters and JSONata metacharacters, each double-quoted and rewritten single-quoted; ", nStr) +
+		Rule: fmt.Sprintf("cases: (a) exhaustive: all %d string literals of <=3 units over a 23-unit alphabet of JSON escapes (incl. the comment delimiters of other languages) (incl. \\uXXXX and a surrogate pair), raw BMP/astral characters and JSONata metacharacters, each double-quoted and rewritten single-quoted; ", nStr) +
 			"(b) a fixed list of malformed texts (bad escapes, unpaired surrogates, out-of-range and non-JSON numbers, trailing commas, unterminated strings) that must be compile errors; (b2) the escape grid: \\u followed by each of the 20736 four-character strings over the alphabet 0 4 a F d 8 g + - space _ x, and a backslash followed by each printable ASCII character, each control character, each character of U+0080..U+024F and the characters that share the low bits of an escape letter, and every sequence of two and three \\u escapes at the edges of the surrogate ranges: what encoding/json accepts must denote the same value, everything else and lone surrogates must be compile errors; (c) PRNG-generated RFC 8259 texts of depth<=5, width<=4 with unique keys: every escape form, all number syntaxes (-0, exponent forms, 17+ digits, subnormals, 1e308), empty and nested containers, arbitrary inter-token whitespace. " +
 			"Oracle: encoding/json's decoding of the same text; EvalBytes(text-as-expression) on five different inputs (null, an object, an empty array, an array of empty containers, a string) must decode to exactly that value (numbers bit-for-bit, the sign of zero included). non-trivial = every case; distinct by text",
 		Assumptions: []string{"encoding/json is the JSON parser of reference, except for unpaired surrogates, where the statement (compile error) is the oracle", "object keys are unique"},
